@@ -23,7 +23,7 @@ REPO_SIZES = {"quick": (300, 40, 0), "thorough": (6000, 60, 0), "widen": (2000, 
 
 REPO_ASSUME = [
     "ids handed to AddTask are fresh (the harness injects t1,t2,... through VerifSetRandStrGen)",
-    "clock readings are non-decreasing within a history (equal readings occur on purpose)",
+    "clock readings are arbitrary: equal readings occur on purpose and 1 tick in 25 steps BACK (ms or up to 90 s: the wall clock is not monotone)",
     "strings are valid UTF-8; times lie within a few hours of 2023-01-01 (time.Sub never saturates)",
     "with a cancelled context only 'an error and no change' is demanded of mutations; reads may answer or refuse",
 ]
@@ -158,7 +158,11 @@ CHECKS = {
         "runs": lambda tier: [{"args": ["cron", "-n", str({"quick": 400, "thorough": 20000, "widen": 4000}[tier]), "-len", "40"]}],
         "rule": "same histories as C15: every edit offers any subset for removal and any list of spare entries incl. "
                 "duplicates of kept / removed / other added identities and entries with undecodable mutator metadata, "
-                "re-offered after rejection; Mon C16 compares Schedule() and all cursors around every rejected edit",
+                "re-offered after rejection; Mon C16 compares Schedule() and all cursors around every rejected edit; "
+                "a C15 monitor (one pending occurrence per stored entry, cursors move to the very next occurrence) "
+                "failing on a history that contains an edit counts for C16 too (an accepted edit must leave every "
+                "added entry at its first occurrence and every kept one untouched)",
+        "extra_mon": {"C15": r"^edit "},
         "trusted_base": COMMON_TB, "assumptions": ["task ids (random UUIDs) are ignored"],
     },
     "C17": {
@@ -200,7 +204,7 @@ CHECKS = {
             {"args": ["sched", "-n", str(n), "-len", "25", "-slots", "0", "-faults", "2" if pid == "C20" else "1"], "seed_off": 50},
             {"args": ["sched", "-n", str(n), "-len", "20", "-slots", "0", "-ties"] + (["-faults", "1"] if pid == "C20" else []), "seed_off": 70},
             {"args": ["sched", "-cron", "-n", str(max(n // 3, 100)), "-len", "25", "-slots", "0"] + (["-faults", "1"] if pid == "C20" else []), "seed_off": 90},
-        ])({"quick": 500, "thorough": 20000, "widen": 3000}[tier]))(pid),
+        ] + ([{"args": ["disp"]}] if pid == "C06" else []))({"quick": 500, "thorough": 20000, "widen": 3000}[tier]))(pid),
         "rule": "the real Scheduler over the real observable repository (in-memory + hook timer, virtual clock), a "
                 "call-logging proxy and a simulated dispatcher with 1..3 slots: random scripts of user mutations, "
                 "time advances, Step / Retry (driver policy: a step that reported an error is retried), completions "
@@ -219,12 +223,13 @@ CHECKS = {
                         "failed dispatch is retried in the quiescence phase",
                         "user mutations are AddTask / UpdateById / Cancel (the scheduler is the only caller of MarkAsDispatched / MarkAsDone)"],
         "claim": claim,
+        **({"extra_mon": {"C09": r"^case ok "}} if pid == "C06" else {}),
     } for pid, claim in (
-        ("C03", "PARTIAL: open known finding D3i (postponement between the scheduler's read and its mark) - the full statement is false of the code, C03_partial excludes exactly that trigger; hook-timer configuration only."),
-        ("C04", "hook-timer configuration; Retry of every error state included."),
-        ("C05", "PARTIAL: 'a worker is free / the queue is running' are hypotheses discharged by C08/C09's ties; hook-timer configuration only."),
-        ("C06", "hook-timer configuration; delivery through eventqueue's goroutines is sampled."),
-        ("C20", "PARTIAL: inherits C03's open finding D3i; faults on every scheduler call incl. hook re-arming."),
+        ("C03", "PARTIAL: open known finding D3i (postponement between the scheduler's read and its mark) - the full statement is false of the code, C03_partial excludes exactly that trigger; theorems for the hook-timer configuration, the cron configuration is tied to CWorld and monitored."),
+        ("C04", "hook-timer configuration: full; Retry of every error state included. Cron configuration: tied to CWorld, formal witnesses of open finding D18 (C04_D18_witness, C04_D18_runs_twice)."),
+        ("C05", "PARTIAL: 'a worker is free / the queue is running' are hypotheses discharged by C08/C09's ties. The global progress theorem (C05_progress: bounded number of fair rounds until nothing is left scheduled) is proved for the hook-timer configuration; the cron configuration is tied to its model (CWorld) and monitored, its progress is not proved (and is false under open finding D18)."),
+        ("C06", "hook-timer configuration; delivery through eventqueue's goroutines is sampled. The outcome the scheduler records is the one the dispatcher delivers: the real WorkerPoolDispatcher's result table (C09's 224 cells) is run here too, and a wrong delivered result of a work function that ran counts against C06."),
+        ("C20", "PARTIAL: inherits C03's open finding D3i; faults on every scheduler call incl. hook re-arming. Safety for every script; recovery: one fair fault-free Retry round resolves every retryable state and leaves no task dispatched-and-never-started (C20_recovery_eventual), under the driver discipline 'a retryable DispatchErr is answered with Retry'."),
     )},
     "C10": {
         "family": "lin", "level": "proof", "modules": ["Gk.Props.C10"], "components": ["lin", "srcfacts-lock"],
